@@ -142,6 +142,7 @@ func consistency(hc bool) openfgav1.ConsistencyPreference {
 //	"v2:<strategy>"         weighted-graph CheckQueryV2 with forced planner
 func (e *Env) RunCheck(ctx context.Context, ev *CheckEv, ts *typesystem.TypeSystem, mg *modelgraph.AuthorizationModelGraph) {
 	ev.E = "Check"
+	ev.Got, ev.Errk, ev.Err = "", "", ""
 	ev.Ctx = normCtx(ev.Ctx)
 	ev.Ctxt = normTuples(ev.Ctxt)
 	var allowed bool
@@ -216,6 +217,7 @@ func (e *Env) RunCheck(ctx context.Context, ev *CheckEv, ts *typesystem.TypeSyst
 
 func (e *Env) RunListObjects(ctx context.Context, ev *ListObjectsEv) {
 	ev.E = "ListObjects"
+	ev.IsErr, ev.Errk, ev.Err = false, "", ""
 	ev.Ctx = normCtx(ev.Ctx)
 	ev.Ctxt = normTuples(ev.Ctxt)
 	var resp *openfgav1.ListObjectsResponse
@@ -241,6 +243,7 @@ func (e *Env) RunListObjects(ctx context.Context, ev *ListObjectsEv) {
 
 func (e *Env) RunListUsers(ctx context.Context, ev *ListUsersEv) {
 	ev.E = "ListUsers"
+	ev.IsErr, ev.Errk, ev.Err = false, "", ""
 	ev.Ctx = normCtx(ev.Ctx)
 	ev.Ctxt = normTuples(ev.Ctxt)
 	var ctxt []*openfgav1.TupleKey
@@ -316,6 +319,7 @@ func treeFromProto(n *openfgav1.UsersetTree_Node) *Tree {
 
 func (e *Env) RunExpand(ctx context.Context, ev *ExpandEv) {
 	ev.E = "Expand"
+	ev.IsErr, ev.Err = false, ""
 	ev.Ctxt = normTuples(ev.Ctxt)
 	resp, err := e.S.Expand(ctx, &openfgav1.ExpandRequest{StoreId: e.StoreID, AuthorizationModelId: e.ModelID,
 		TupleKey: &openfgav1.ExpandRequestTupleKey{Object: ev.O.String(), Relation: ev.R}, ContextualTuples: CtxTuples(ev.Ctxt)})
